@@ -129,3 +129,88 @@ func MuxFrame(tag uint8, p []byte) []byte {
 	w.WriteMsg(tag, p)
 	return buf.Bytes()
 }
+
+// ParseOpts parses rsync command-line options the way the daemon does.
+func ParseOpts(args []string) (*rsyncopts.Options, []string, error) {
+	osenv := &rsyncos.Env{Stdout: io.Discard, Stderr: io.Discard}
+	pc := rsyncopts.NewContext(rsyncopts.NewOptionsWithGokrazyDefaults(osenv))
+	if err := pc.ParseArguments(osenv, args); err != nil {
+		return nil, nil, err
+	}
+	return pc.Options, pc.RemainingArgs, nil
+}
+
+// SendFileList runs the real sender.SendFileList (options args, module
+// directory localDir, requested paths, filter rules in wire format) and
+// returns the bytes written plus the sorted transfer names.
+func SendFileList(args []string, localDir string, paths []string, rules []string) (wire []byte, names []string, err error) {
+	opts, _, err := ParseOpts(args)
+	if err != nil {
+		return nil, nil, err
+	}
+	var buf bytes.Buffer
+	osenv := &rsyncos.Env{Stdout: io.Discard, Stderr: io.Discard}
+	st := &sender.Transfer{
+		Logger:   log.New(io.Discard),
+		Opts:     opts,
+		Env:      osenv,
+		Progress: progress.NewPrinter(io.Discard, time.Now),
+		Conn:     &rsyncwire.Conn{Reader: bytes.NewReader(nil), Writer: &buf},
+	}
+	names, err = sender.VerifSendFileList(st, localDir, paths, rules)
+	return buf.Bytes(), names, err
+}
+
+// FileEntry mirrors receiver.File.
+type FileEntry struct {
+	Name       string
+	Length     int64
+	ModTime    int64
+	Mode       int32
+	Uid, Gid   int32
+	LinkTarget string
+	Rdev       int32
+	Checksum   []byte
+}
+
+type IdName struct {
+	Id   int32
+	Name string
+}
+
+type FlistOpts struct {
+	PreserveUid, PreserveGid, PreserveLinks, PreserveDevices, PreserveSpecials, AlwaysChecksum bool
+}
+
+// ReceiveFileList runs the real receiver.ReceiveFileList on wire.
+func ReceiveFileList(o FlistOpts, wire []byte) (entries []FileEntry, users, groups []IdName, ioErrors int32, consumed int, err error) {
+	rd := bytes.NewReader(wire)
+	no := func(rsyncopts.InfoLevel, uint16) bool { return false }
+	nod := func(rsyncopts.DebugLevel, uint16) bool { return false }
+	rt := &receiver.Transfer{
+		Logger: log.New(io.Discard),
+		Opts: &receiver.TransferOpts{
+			PreserveUid: o.PreserveUid, PreserveGid: o.PreserveGid, PreserveLinks: o.PreserveLinks,
+			PreserveDevices: o.PreserveDevices, PreserveSpecials: o.PreserveSpecials, AlwaysChecksum: o.AlwaysChecksum,
+			InfoGTE: no, DebugGTE: nod,
+		},
+		Env:  &rsyncos.Env{Stdout: io.Discard, Stderr: io.Discard},
+		Conn: &rsyncwire.Conn{Reader: rd, Writer: io.Discard},
+	}
+	fl, err := rt.ReceiveFileList()
+	consumed = len(wire) - rd.Len()
+	if err != nil {
+		return nil, nil, nil, 0, consumed, err
+	}
+	for _, f := range fl {
+		entries = append(entries, FileEntry{Name: f.Name, Length: f.Length, ModTime: f.ModTime.Unix(), Mode: f.Mode,
+			Uid: f.Uid, Gid: f.Gid, LinkTarget: f.LinkTarget, Rdev: f.Rdev, Checksum: append([]byte{}, f.Checksum[:]...)})
+	}
+	for id, m := range rt.Users {
+		users = append(users, IdName{id, m.Name})
+	}
+	for id, m := range rt.Groups {
+		groups = append(groups, IdName{id, m.Name})
+	}
+	return entries, users, groups, rt.IOErrors, consumed, nil
+}
